@@ -4,8 +4,8 @@
    are decimal with a leading non-zero digit, string bodies are lexable after rewriting, operators are those of
    Lua 5.1, a prefix expression is a name / a parenthesised expression / a chain, no unary minus is applied to
    something that starts with a minus sign (which normalisation guarantees: Fmt0Proof.nexp_no_double_minus), comments
-   hold no line break and do not start with `[`; with comments the line ending must be LF (full_moon makes the CR of
-   a CR LF behind a line comment part of the comment, so the token list - not the text - differs). *)
+   hold no line break and do not start with `[`; with comments the line ending must be Lex.LF (full_moon makes the Lex.CR of
+   a Lex.CR Lex.LF behind a line comment part of the comment, so the token list - not the text - differs). *)
 From Coq Require Import List Ascii String Bool Arith Lia.
 Import ListNotations.
 From SV Require Import Lex LexRender LexSym LexNum LexAdj Expr Quote QuoteMore Number Fmt0 Fmt0Proof.
@@ -126,7 +126,7 @@ Qed.
 
 (* ---- what may follow an expression ---- *)
 Definition clo (n : LexAdj.nc) : bool :=
-  match n with None => true | Some c => Ascii.eqb c SP || Ascii.eqb c CR || Ascii.eqb c LF || Ascii.eqb c ")" || Ascii.eqb c "," || Ascii.eqb c "]" end.
+  match n with None => true | Some c => Ascii.eqb c Lex.SP || Ascii.eqb c Lex.CR || Ascii.eqb c Lex.LF || Ascii.eqb c ")" || Ascii.eqb c "," || Ascii.eqb c "]" end.
 Definition clop (n : LexAdj.nc) : bool := match n with Some c => Ascii.eqb c "." || Ascii.eqb c ":" || Ascii.eqb c "(" || Ascii.eqb c "[" | None => false end.
 Definition okn (e : exp) (n : LexAdj.nc) : bool := clo n || (prefixlike e && clop n).
 Ltac cases_of H := repeat (apply orb_true_iff in H; destruct H as [H|H]); apply Ascii.eqb_eq in H; subst.
@@ -144,10 +144,10 @@ Lemma okn_of_clo e n : clo n = true -> okn e n = true. Proof. unfold okn. intros
 Lemma okn_of_clop e n : prefixlike e = true -> clop n = true -> okn e n = true.
 Proof. unfold okn. intros P H. rewrite P, H. apply orb_true_r. Qed.
 
-Definition nb (c : ascii) : bool := negb (blank c) && negb (Ascii.eqb c LF) && negb (Ascii.eqb c CR).
+Definition nb (c : ascii) : bool := negb (blank c) && negb (Ascii.eqb c Lex.LF) && negb (Ascii.eqb c Lex.CR).
 Lemma good_nb c : good c = true -> nb c = true.
 Proof.
-  intros G. unfold nb, blank, Lex.eqc. rewrite (good_ne c SP), (good_ne c TAB), (good_ne c LF), (good_ne c CR); try reflexivity; exact G.
+  intros G. unfold nb, blank, Lex.eqc. rewrite (good_ne c Lex.SP), (good_ne c Lex.TAB), (good_ne c Lex.LF), (good_ne c Lex.CR); try reflexivity; exact G.
 Qed.
 Lemma start_good c : Lex.is_ident_start c = true -> good c = true. Proof. intros H. unfold good. rewrite H. reflexivity. Qed.
 Lemma fc_nb : forall e, wfe e -> nb (fc e) = true.
@@ -259,7 +259,7 @@ Qed.
 Lemma good_safe_facts c : good c = true ->
   LexAdj.ne "[" (Some c) = true /\ LexAdj.ne "=" (Some c) = true /\ LexAdj.ne ">" (Some c) = true.
 Proof. intros G. unfold LexAdj.ne, Lex.eqc. rewrite (good_ne c "["), (good_ne c "="), (good_ne c ">"); try reflexivity; try exact G. repeat split. Qed.
-Lemma safe_bop b : wf_bop b = true -> safe (kw (bop_text b)) (Some SP) = true.
+Lemma safe_bop b : wf_bop b = true -> safe (kw (bop_text b)) (Some Lex.SP) = true.
 Proof. destruct b; try discriminate; intros _; reflexivity. Qed.
 
 Theorem adj_pexp : forall e, wfe e -> forall nx, okn e nx = true -> adj_ok (pexp e) nx = true.
@@ -338,5 +338,277 @@ Proof.
       rewrite adj_cons. apply andb_true_iff. split; [reflexivity|]. rewrite adj_cons. apply andb_true_iff. split; [reflexivity|].
       rewrite adj_cons. apply andb_true_iff. split; [reflexivity|]. rewrite adj_cons. apply andb_true_iff. split; [rewrite (nextc_pexp e2 nx W2); apply safe_sp; apply fc_nb; exact W2|].
       apply IHe2; [exact W2|apply okn_of_clo; exact C].
+Qed.
+
+(* ================= statements ================= *)
+(* "good segment": its tokens are well formed and each is compatible with what follows, given the first character [n]
+   of what follows the segment *)
+Definition gs (x : list tok) (n : LexAdj.nc) : Prop := Forall wf_tok x /\ adj_ok x n = true.
+Lemma gs_nil n : gs [] n. Proof. split; [constructor|reflexivity]. Qed.
+Lemma gs_cons t r n : wf_tok t -> safe t (nextc r n) = true -> gs r n -> gs (t :: r) n.
+Proof. intros W S [A B]. split; [constructor; assumption|]. rewrite adj_cons, S, B. reflexivity. Qed.
+Lemma gs_app a b n : gs a (nextc b n) -> gs b n -> gs (a ++ b) n.
+Proof. intros [A1 A2] [B1 B2]. split; [apply Forall_app; split; assumption|]. rewrite adj_app, A2, B2. reflexivity. Qed.
+Lemma gs_pexp e n : wfe e -> okn e n = true -> gs (pexp e) n.
+Proof. intros W K. split; [apply wf_toks_pexp; exact W|apply adj_pexp; assumption]. Qed.
+
+Variable c : cfg0.
+Hypothesis Hst : style0 c = st.
+Definition eolc : ascii := if windows0 c then Lex.CR else Lex.LF.
+Lemma nextc_eol r n : nextc (eol c :: r) n = Some eolc. Proof. unfold eol, eolc. destruct (windows0 c); reflexivity. Qed.
+Lemma wf_eol : wf_tok (eol c). Proof. unfold eol. destruct (windows0 c); [right; left; reflexivity|left; reflexivity]. Qed.
+Lemma safe_eol n : safe (eol c) n = true. Proof. unfold eol. destruct (windows0 c); reflexivity. Qed.
+Lemma clo_eolc : clo (Some eolc) = true. Proof. unfold eolc. destruct (windows0 c); reflexivity. Qed.
+Lemma word_eolc : LexAdj.word_follow (Some eolc) = true. Proof. unfold eolc. destruct (windows0 c); reflexivity. Qed.
+Lemma gs_eol r n : gs r n -> gs (eol c :: r) n.
+Proof. intros H. apply gs_cons; [apply wf_eol|apply safe_eol|exact H]. Qed.
+(* what may follow a statement on its line: the blank before a trailing comment, or the line ending *)
+Definition eolish (n : LexAdj.nc) : bool := match n with Some x => Ascii.eqb x Lex.SP || Ascii.eqb x Lex.CR || Ascii.eqb x Lex.LF | None => false end.
+Lemma eolish_clo n : eolish n = true -> clo n = true.
+Proof. destruct n as [x|]; [|discriminate]. cbn. intros H. cases_of H; reflexivity. Qed.
+Lemma eolish_word n : eolish n = true -> LexAdj.word_follow n = true. Proof. intros H. apply clo_word. apply eolish_clo. exact H. Qed.
+Lemma eolish_eolc : eolish (Some eolc) = true. Proof. unfold eolc. destruct (windows0 c); reflexivity. Qed.
+
+(* keywords *)
+Lemma gs_word s r n : wf_tok (kw s) -> (match str s with c0 :: _ => Lex.is_ident_start c0 | [] => false end) = true ->
+  LexAdj.word_follow (nextc r n) = true -> gs r n -> gs (kw s :: r) n.
+Proof. intros W I F H. apply gs_cons; [exact W|apply safe_kw_word; assumption|exact H]. Qed.
+Lemma gs_sp r n : (exists ch, nextc r n = Some ch /\ nb ch = true) -> gs r n -> gs (sp :: r) n.
+Proof. intros (ch & E & B) H. apply gs_cons; [apply wf_sp|rewrite E; apply safe_sp; exact B|exact H]. Qed.
+Lemma gs_sym s r n : wf_tok (kw s) -> safe (kw s) (nextc r n) = true -> gs r n -> gs (kw s :: r) n.
+Proof. intros. apply gs_cons; assumption. Qed.
+
+(* the indentation of a line (an indent width of zero would print an empty whitespace token: excluded) *)
+Hypothesis Hwidth : spaces0 c = true -> width0 c <> 0.
+Lemma blank_nb_follow ch : nb ch = true -> negb (blank ch) && negb (Lex.eqc ch Lex.LF) && negb (Lex.eqc ch Lex.CR) = true.
+Proof. intros H. exact H. Qed.
+Lemma gs_indent d r n : (exists ch, nextc r n = Some ch /\ nb ch = true) -> gs r n -> gs (indent c d ++ r) n.
+Proof.
+  intros (ch & E & B) H. destruct d as [|d]; [exact H|]. unfold indent. cbn [app].
+  assert (X : exists x k, (if spaces0 c return bytes then repeat Lex.SP (S d * width0 c) else repeat Lex.TAB (S d)) = x :: k /\ blank x = true /\ forallb blank k = true).
+  { destruct (spaces0 c) eqn:Sp.
+    - destruct (width0 c) as [|w] eqn:Wd; [exfalso; apply (Hwidth eq_refl); reflexivity|].
+      exists Lex.SP, (repeat Lex.SP (w + d * S w)). split; [reflexivity|]. split; [reflexivity|]. apply Fmt0Proof.forallb_repeat. reflexivity.
+    - exists Lex.TAB, (repeat Lex.TAB d). split; [reflexivity|]. split; [reflexivity|]. apply Fmt0Proof.forallb_repeat. reflexivity. }
+  destruct X as (x & k & EQ & B1 & B2). rewrite EQ. apply gs_cons; [| |exact H].
+  - right. right. split; [discriminate|]. cbn [forallb]. rewrite B1, B2. reflexivity.
+  - rewrite E. cbn [safe].
+    assert (N1 : beqb (x :: k) [Lex.LF] = false).
+    { destruct k; cbn [beqb]; [|apply andb_false_r]. rewrite andb_true_r. unfold blank in B1. destruct (Lex.eqc x Lex.LF) eqn:Q; [|reflexivity]. apply Ascii.eqb_eq in Q. subst x. discriminate. }
+    assert (N2 : beqb (x :: k) [Lex.CR; Lex.LF] = false).
+    { cbn [beqb]. unfold blank in B1. destruct (Lex.eqc x Lex.CR) eqn:Q; [|reflexivity]. apply Ascii.eqb_eq in Q. subst x. discriminate. }
+    rewrite N1, N2. cbn [orb]. exact B.
+Qed.
+
+(* lists separated by `, ` *)
+Definition elemg (x : list tok) : Prop :=
+  exists ch, nb ch = true /\ (forall n, nextc x n = Some ch) /\ (forall n, clo n = true -> gs x n).
+Lemma elemg_elem x : elemg x -> elem x.
+Proof. intros (ch & B & N & G). exists ch. split; [exact B|]. split; [exact N|]. intros n C. apply (G n C). Qed.
+Lemma gs_commas l : Forall elemg l -> forall m, clo m = true -> gs (commas l) m.
+Proof.
+  intros H m M. split.
+  - apply wf_commas. eapply Forall_impl; [|exact H]. intros x (ch & _ & _ & G). apply (G None eq_refl).
+  - apply adj_commas; [|exact M]. eapply Forall_impl; [|exact H]. intros x Hx. apply elemg_elem. exact Hx.
+Qed.
+Lemma nextc_commas_g x r n : elemg x -> exists ch, nextc (commas (x :: r)) n = Some ch /\ nb ch = true.
+Proof.
+  intros Hx. rewrite (nextc_commas x r n (elemg_elem x Hx)). destruct Hx as (ch & B & N & _). exists ch. split; [apply N|exact B].
+Qed.
+Lemma elemg_pexp e : wfe e -> elemg (pexp e).
+Proof.
+  intros W. exists (fc e). split; [apply fc_nb; exact W|]. split; [intros n; apply nextc_pexp; exact W|].
+  intros n C. apply gs_pexp; [exact W|apply okn_of_clo; exact C].
+Qed.
+Lemma elemg_name nm : wf_name nm -> elemg [TIdent nm].
+Proof.
+  intros W. destruct (wf_name_hd nm W) as (ch & r & E & I). exists ch. split; [apply good_nb; apply start_good; exact I|].
+  split; [intros n; subst nm; reflexivity|]. intros n C. apply gs_cons; [exact W|apply clo_word; exact C|apply gs_nil].
+Qed.
+Definition wfes (es : list exp) : Prop := Forall (fun e => wfe e /\ isfield e = false) es.
+Lemma gs_pexps es m : wfes es -> clo m = true -> gs (Fmt0.pexps st es) m.
+Proof. intros W M. apply gs_commas; [|exact M]. apply Forall_map. eapply Forall_impl; [|exact W]. intros e [We _]. apply elemg_pexp. exact We. Qed.
+Lemma gs_pnames ns m : Forall wf_name ns -> clo m = true -> gs (pnames ns) m.
+Proof. intros W M. apply gs_commas; [|exact M]. apply Forall_map. eapply Forall_impl; [|exact W]. intros nm. apply elemg_name. Qed.
+Lemma first_pexps e es n : wfe e -> exists ch, nextc (Fmt0.pexps st (e :: es)) n = Some ch /\ nb ch = true.
+Proof. intros W. unfold Fmt0.pexps. cbn [map]. apply nextc_commas_g. apply elemg_pexp. exact W. Qed.
+Lemma first_pnames nm ns n : wf_name nm -> exists ch, nextc (pnames (nm :: ns)) n = Some ch /\ nb ch = true.
+Proof. intros W. unfold pnames. cbn [map]. apply nextc_commas_g. apply elemg_name. exact W. Qed.
+
+(* ---- well-formed statements ---- *)
+Definition wf_com (x : bytes) : Prop :=
+  no_lf x = true /\ (match x with ch :: _ => Lex.eqc ch "[" = false | [] => True end) /\ windows0 c = false.
+Definition wf_triv (tv : trivia) : Prop := Forall (fun bc : bool * bytes => wf_com (snd bc)) tv.
+Definition wfcond (e : exp) : Prop := wfe e /\ isfield e = false.
+Fixpoint wfs (s : stmt) : Prop :=
+  match s with
+  | SLocal ns es => ns <> [] /\ Forall wf_name ns /\ wfes es
+  | SAssign vs es => vs <> [] /\ es <> [] /\ wfes vs /\ wfes es
+  | SCall e => wfcond e
+  | SDo b => wfb b
+  | SWhile e b => wfcond e /\ wfb b
+  | SRepeat b e => wfb b /\ wfcond e
+  | SIf e t r => wfcond e /\ wfb t /\ wfr r
+  | SNumFor x a b so body => wf_name x /\ wfcond a /\ wfcond b /\ match so with Some y => wfcond y | None => True end /\ wfb body
+  | SGenFor ns es body => ns <> [] /\ Forall wf_name ns /\ es <> [] /\ wfes es /\ wfb body
+  | SFunction p m ps va body => p <> [] /\ Forall wf_name p /\ match m with Some y => wf_name y | None => True end /\ Forall wf_name ps /\ wfb body
+  | SLocalFunction x ps va body => wf_name x /\ Forall wf_name ps /\ wfb body
+  | SReturn es => wfes es
+  | SBreak => True
+  end
+with wfr (r : els) : Prop := match r with NoElse => True | Else b => wfb b | ElseIf e t r2 => wfcond e /\ wfb t /\ wfr r2 end
+with wfi (i : item) : Prop :=
+  match i with Item l _ s t => wf_triv l /\ wfs s /\ match t with Some x => wf_com x | None => True end end
+with wfb (b : blk) : Prop :=
+  match b with Blk is tl => (fix all (l : list item) : Prop := match l with [] => True | x :: r => wfi x /\ all r end) is /\ wf_triv tl end.
+Fixpoint wfis (l : list item) : Prop := match l with [] => True | x :: r => wfi x /\ wfis r end.
+Lemma wfb_eq is tl : wfb (Blk is tl) = (wfis is /\ wf_triv tl). Proof. reflexivity. Qed.
+
+Notation pexps := (Fmt0.pexps st).
+(* the first character of a statement *)
+Lemma first_pstmt s d n : wfs s -> exists ch, nextc (pstmt c d s) n = Some ch /\ nb ch = true.
+Proof.
+  destruct s; intros W; try (eexists; split; [reflexivity|reflexivity]).
+  - destruct es; eexists; split; reflexivity.
+  - cbn [pstmt]. rewrite Hst. destruct W as (N & _ & W & _). destruct vs as [|x vs]; [contradiction|]. inversion W as [|? ? [Wx _] _]; subst.
+    destruct (first_pexps x vs None Wx) as (ch & E & B). exists ch. split; [|exact B].
+    rewrite nextc_app_ne; [exact E|]. intros Q. rewrite Q in E. discriminate.
+  - cbn [pstmt]. rewrite Hst. destruct W as [W _]. exists (fc e). split; [apply nextc_pexp; exact W|apply fc_nb; exact W].
+  - destruct es; eexists; split; reflexivity.
+Qed.
+
+Ltac wfkw := first [ exact I | (cbn; repeat split; reflexivity) ].
+Ltac word := apply gs_word; [wfkw | reflexivity | try reflexivity; try (rewrite nextc_eol; apply word_eolc) | ].
+Ltac spc := apply gs_sp; [try (eexists; split; [reflexivity|reflexivity]) | ].
+Lemma gs_end d n : eolish n = true -> gs (indent c d ++ [kw "end"]) n.
+Proof.
+  intros E. apply gs_indent; [eexists; split; reflexivity|]. apply gs_word; [wfkw|reflexivity|apply eolish_word; exact E|apply gs_nil].
+Qed.
+Lemma gs_any_then_eol x r n : gs x (Some eolc) -> gs r n -> gs (x ++ eol c :: r) n.
+Proof. intros A B. apply gs_app; [rewrite nextc_eol; exact A|apply gs_eol; exact B]. Qed.
+Definition Ps (s : stmt) : Prop := wfs s -> forall d n, eolish n = true -> gs (pstmt c d s) n.
+Definition Qs (r : els) : Prop := wfr r -> forall d n, gs (pels c d r) n.
+Definition Is (i : item) : Prop := wfi i -> forall d n, gs (pitem c d i) n.
+Definition Bs (b : blk) : Prop := wfb b -> forall d n, gs (pblk c d b) n.
+Lemma gs_block_end b d n : Bs b -> wfb b -> eolish n = true -> gs (pblk c (S d) b ++ indent c d ++ [kw "end"]) n.
+Proof. intros H W E. apply gs_app; [apply H; exact W|apply gs_end; exact E]. Qed.
+Lemma first_cond e r n : wfe e -> exists ch, nextc (pexp e ++ r) n = Some ch /\ nb ch = true.
+Proof. intros W. rewrite nextc_app_ne by apply pexp_ne. exists (fc e). split; [apply nextc_pexp; exact W|apply fc_nb; exact W]. Qed.
+Lemma gs_com x r n : wf_com x -> nextc r n = Some Lex.LF -> gs r n -> gs (TLineCom x :: r) n.
+Proof. intros (A & B & _) E H. apply gs_cons; [split; assumption|rewrite E; reflexivity|exact H]. Qed.
+Lemma eol_unix : windows0 c = false -> forall r n, nextc (eol c :: r) n = Some Lex.LF.
+Proof. intros H r n. unfold eol. rewrite H. reflexivity. Qed.
+Lemma gs_ptrivia d tv r n : wf_triv tv -> gs r n -> gs (ptrivia c d tv ++ r) n.
+Proof.
+  unfold ptrivia. induction 1 as [|[b x] k Hx Hk IH]; intros H; [exact H|]. cbn [map List.concat fst snd]. rewrite <- !app_assoc.
+  assert (G : gs (indent c d ++ [TLineCom x; eol c] ++ List.concat (map (fun bc : bool * bytes => (if fst bc then [eol c] else []) ++ indent c d ++ [TLineCom (snd bc); eol c]) k) ++ r) n).
+  { apply gs_indent; [eexists; split; reflexivity|]. cbn [app]. cbn [snd] in Hx. apply gs_com; [exact Hx|apply eol_unix; apply Hx|]. apply gs_eol. apply IH. exact H. }
+  destruct b; [cbn [app]; apply gs_eol; exact G|exact G].
+Qed.
+
+Lemma gs_items is : Forall Is is -> wfis is -> forall d n, gs (List.concat (map (pitem c d) is)) n.
+Proof.
+  induction 1 as [|i r Hi Hr IH]; intros W d n; [apply gs_nil|]. destruct W as [W1 W2]. cbn [map List.concat].
+  apply gs_app; [apply Hi; exact W1|apply IH; exact W2].
+Qed.
+Lemma gs_fbody b d n : Bs b -> wfb b -> eolish n = true -> gs (Fmt0Proof.fbody c d b) n.
+Proof.
+  intros H W E. unfold Fmt0Proof.fbody. destruct (blk_empty b).
+  - spc. apply gs_word; [wfkw|reflexivity|apply eolish_word; exact E|apply gs_nil].
+  - apply gs_eol. apply gs_block_end; assumption.
+Qed.
+Lemma gs_pparams ps va r n : Forall wf_name ps -> gs r n -> gs (pparams ps va ++ r) n.
+Proof.
+  intros W H. unfold pparams. cbn [app]. apply gs_sym; [wfkw|reflexivity|]. rewrite <- app_assoc. apply gs_app; [|cbn [app]; apply gs_sym; [wfkw|reflexivity|exact H]].
+  cbn [app nextc]. apply gs_commas; [|reflexivity]. apply Forall_app. split; [apply Forall_map; eapply Forall_impl; [|exact W]; intros nm; apply elemg_name|].
+  destruct va; [|constructor]. constructor; [|constructor]. exists ".". split; [reflexivity|]. split; [reflexivity|]. intros m _. apply gs_sym; [wfkw|reflexivity|apply gs_nil].
+Qed.
+Lemma gs_dotted p r n : Forall wf_name p -> p <> [] -> (exists ch, nextc r n = Some ch /\ LexAdj.word_follow (Some ch) = true) -> gs r n -> gs (dotted p ++ r) n.
+Proof.
+  intros W N (ch & E & F) H. induction p as [|x k IH]; [contradiction|]. inversion W as [|? ? Wx Wk]; subst. destruct k as [|y k'].
+  - cbn [dotted app]. apply gs_cons; [exact Wx|rewrite E; exact F|exact H].
+  - change (dotted (x :: y :: k')) with (TIdent x :: kw "." :: dotted (y :: k')). cbn [app].
+    apply gs_cons; [exact Wx|reflexivity|]. apply gs_sym; [wfkw| |apply IH; [exact Wk|discriminate]].
+    inversion Wk as [|? ? Wy _]; subst. destruct (wf_name_hd y Wy) as (cy & ry & Ey & Iy). subst y. destruct (start_facts cy Iy) as (A & B & _).
+    destruct k'; cbn [dotted app nextc LexAdj.fct show LexAdj.hdc]; change (LexAdj.dot_follow (Some cy) = true); unfold LexAdj.dot_follow, LexAdj.ne, Lex.eqc; cbn beta iota; rewrite A, B; reflexivity.
+Qed.
+
+Theorem gs_all : (forall s, Ps s) /\ (forall b, Bs b).
+Proof.
+  assert (Hitem : forall l bl s t, Ps s -> Is (Item l bl s t)).
+  { intros l bl s t H (W1 & W2 & W3) d n. rewrite Fmt0Proof.p_item. apply gs_ptrivia; [exact W1|].
+    assert (G : gs (indent c d ++ pstmt c d s ++ ptrail t ++ [eol c]) n).
+    { apply gs_indent; [destruct (first_pstmt s d None W2) as (ch & E & B); exists ch; split; [|exact B]; rewrite nextc_app_ne; [exact E|intros Q; rewrite Q in E; discriminate]|].
+      destruct t as [x|]; cbn [ptrail app].
+      - apply gs_app; [apply H; [exact W2|reflexivity]|]. spc. apply gs_com; [exact W3|apply eol_unix; apply W3|]. apply gs_eol. apply gs_nil.
+      - apply gs_app; [apply H; [exact W2|rewrite nextc_eol; apply eolish_eolc]|]. apply gs_eol. apply gs_nil. }
+    destruct bl; [cbn [app]; apply gs_eol; exact G|exact G]. }
+  assert (Hblk : forall is tl, Forall Is is -> Bs (Blk is tl)).
+  { intros is tl H W d n. rewrite wfb_eq in W. destruct W as [W1 W2]. rewrite Fmt0Proof.p_blk. apply gs_app; [apply gs_items; assumption|].
+    rewrite <- (app_nil_r (ptrivia c d tl)). apply gs_ptrivia; [exact W2|apply gs_nil]. }
+  assert (H : forall s, Ps s); [|split; [exact H|]].
+  - apply (stmt_ind' Ps Qs Is Bs); unfold Ps, Qs, Bs; intros; try (apply Hitem; assumption); try (apply Hblk; assumption).
+    + (* local *) destruct H as (N & Wn & We). destruct ns as [|x ns']; [contradiction|]. inversion Wn as [|? ? Wx _]; subst.
+      destruct es as [|e es']; cbn [pstmt]; rewrite ?Hst.
+      * word. apply gs_sp; [destruct (first_pnames x ns' n Wx) as (ch & E & B); exists ch; split; assumption|]. apply gs_pnames; [exact Wn|apply eolish_clo; exact H0].
+      * inversion We as [|? ? [Wee _] _]; subst. word. apply gs_sp; [destruct (first_pnames x ns' None Wx) as (ch & E & B); exists ch; split; [|exact B]; rewrite nextc_app_ne; [exact E|intros Q; rewrite Q in E; discriminate]|].
+        apply gs_app; [apply gs_pnames; [exact Wn|reflexivity]|]. spc. apply gs_sym; [wfkw|reflexivity|]. apply gs_sp; [apply (first_pexps e es' n Wee)|]. apply gs_pexps; [exact We|apply eolish_clo; exact H0].
+    + (* assignment *) destruct H as (N1 & N2 & Wv & We). cbn [pstmt]. rewrite Hst. destruct es as [|e es']; [contradiction|]. inversion We as [|? ? [Wee _] _]; subst.
+      apply gs_app; [apply gs_pexps; [exact Wv|reflexivity]|]. spc. apply gs_sym; [wfkw|reflexivity|]. apply gs_sp; [apply (first_pexps e es' n Wee)|]. apply gs_pexps; [exact We|apply eolish_clo; exact H0].
+    + (* call *) destruct H as [W _]. cbn [pstmt]. rewrite Hst. apply gs_pexp; [exact W|apply okn_of_clo; apply eolish_clo; exact H0].
+    + (* do *) rewrite Fmt0Proof.p_do. word. apply gs_eol. apply gs_block_end; assumption.
+    + (* while *) destruct H0 as [[We _] Wb]. rewrite Fmt0Proof.p_while, Hst. word. apply gs_sp; [apply first_cond; exact We|].
+      apply gs_app; [apply gs_pexp; [exact We|apply okn_of_clo; reflexivity]|]. spc. word. apply gs_eol. apply gs_block_end; assumption.
+    + (* repeat *) destruct H0 as [Wb [We _]]. rewrite Fmt0Proof.p_repeat, Hst. word. apply gs_eol. apply gs_app; [apply H; exact Wb|].
+      apply gs_indent; [eexists; split; reflexivity|]. word. apply gs_sp; [exists (fc e); split; [apply nextc_pexp; exact We|apply fc_nb; exact We]|].
+      apply gs_pexp; [exact We|apply okn_of_clo; apply eolish_clo; exact H1].
+    + (* if *) destruct H1 as ([We _] & Wt & Wr). rewrite Fmt0Proof.p_if, Hst. word. apply gs_sp; [apply first_cond; exact We|].
+      apply gs_app; [apply gs_pexp; [exact We|apply okn_of_clo; reflexivity]|]. spc. word. apply gs_eol. apply gs_app; [apply H; exact Wt|].
+      apply gs_app; [apply H0; exact Wr|]. apply gs_end. exact H2.
+    + (* numeric for *) destruct H0 as (Wx & [Wa _] & [Wb _] & Wst & Wbody). rewrite Fmt0Proof.p_numfor, Hst. word.
+      apply gs_sp; [destruct (wf_name_hd _ Wx) as (cx & rx & Ex & Ix); rewrite Ex; eexists; split; [reflexivity|apply good_nb; apply start_good; exact Ix]|].
+      apply gs_cons; [exact Wx|reflexivity|]. spc. apply gs_sym; [wfkw|reflexivity|]. apply gs_sp; [apply first_cond; exact Wa|].
+      apply gs_app; [apply gs_pexp; [exact Wa|apply okn_of_clo; reflexivity]|]. apply gs_sym; [wfkw|reflexivity|]. apply gs_sp; [apply first_cond; exact Wb|].
+      assert (T : gs (sp :: kw "do" :: eol c :: pblk c (S d) body ++ indent c d ++ [kw "end"]) n) by (spc; word; apply gs_eol; apply gs_block_end; assumption).
+      destruct st0 as [y|]; cbn [app].
+      * destruct Wst as [Wy _]. apply gs_app; [apply gs_pexp; [exact Wb|apply okn_of_clo; reflexivity]|]. apply gs_sym; [wfkw|reflexivity|]. apply gs_sp; [apply first_cond; exact Wy|].
+        apply gs_app; [apply gs_pexp; [exact Wy|apply okn_of_clo; reflexivity]|exact T].
+      * apply gs_app; [apply gs_pexp; [exact Wb|apply okn_of_clo; reflexivity]|exact T].
+    + (* generic for *) destruct H0 as (N1 & Wn & N2 & We & Wbody). rewrite Fmt0Proof.p_genfor, Hst. destruct ns as [|x ns']; [contradiction|]. inversion Wn as [|? ? Wx _]; subst.
+      destruct es as [|e es']; [contradiction|]. inversion We as [|? ? [Wee _] _]; subst.
+      word. apply gs_sp; [destruct (first_pnames x ns' None Wx) as (ch & E & B); exists ch; split; [|exact B]; rewrite nextc_app_ne; [exact E|intros Q; rewrite Q in E; discriminate]|].
+      apply gs_app; [apply gs_pnames; [exact Wn|reflexivity]|]. spc. word.
+      apply gs_sp; [destruct (first_pexps e es' None Wee) as (ch & E & B); exists ch; split; [|exact B]; rewrite nextc_app_ne; [exact E|intros Q; rewrite Q in E; discriminate]|].
+      apply gs_app; [apply gs_pexps; [exact We|reflexivity]|]. spc. word. apply gs_eol. apply gs_block_end; assumption.
+    + (* function *) destruct H0 as (N & Wp & Wm & Wps & Wbody). rewrite Fmt0Proof.p_function. word.
+      assert (T : gs (pparams ps va ++ Fmt0Proof.fbody c d body) n) by (apply gs_pparams; [exact Wps|apply gs_fbody; assumption]).
+      apply gs_sp; [destruct p as [|x p']; [contradiction|]; inversion Wp as [|? ? Wx _]; subst; destruct (wf_name_hd x Wx) as (cx & rx & Ex & Ix); subst x;
+                     exists cx; split; [destruct p'; reflexivity|apply good_nb; apply start_good; exact Ix]|].
+      destruct m as [y|].
+      * apply gs_dotted; [exact Wp|exact N|eexists; split; reflexivity|]. cbn [app].
+        destruct (wf_name_hd y Wm) as (cy & ry & Ey & Iy). subst y. destruct (start_facts cy Iy) as (_ & _ & A).
+        apply gs_sym; [wfkw|change (LexAdj.ne ":" (Some cy) = true); unfold LexAdj.ne, Lex.eqc; rewrite A; reflexivity|].
+        apply gs_cons; [exact Wm|reflexivity|exact T].
+      * cbn [app]. apply gs_dotted; [exact Wp|exact N|eexists; split; reflexivity|exact T].
+    + (* local function *) destruct H0 as (Wx & Wps & Wbody). rewrite Fmt0Proof.p_localfunction. word. spc. word.
+      apply gs_sp; [destruct (wf_name_hd _ Wx) as (cx & rx & Ex & Ix); rewrite Ex; eexists; split; [reflexivity|apply good_nb; apply start_good; exact Ix]|].
+      apply gs_cons; [exact Wx|reflexivity|]. apply gs_pparams; [exact Wps|apply gs_fbody; assumption].
+    + (* return *) destruct es as [|e es']; cbn [pstmt]; rewrite ?Hst.
+      * apply gs_word; [wfkw|reflexivity|apply eolish_word; exact H0|apply gs_nil].
+      * inversion H as [|? ? [Wee _] _]; subst. word. apply gs_sp; [apply (first_pexps e es' n Wee)|]. apply gs_pexps; [exact H|apply eolish_clo; exact H0].
+    + (* break *) cbn [pstmt]. apply gs_word; [wfkw|reflexivity|apply eolish_word; exact H0|apply gs_nil].
+    + (* no else *) apply gs_nil.
+    + (* else *) rewrite Fmt0Proof.p_else. apply gs_indent; [eexists; split; reflexivity|]. word. apply gs_eol. apply H. exact H0.
+    + (* elseif *) destruct H1 as ([We _] & Wt & Wr). rewrite Fmt0Proof.p_elseif, Hst. apply gs_indent; [eexists; split; reflexivity|]. word.
+      apply gs_sp; [apply first_cond; exact We|]. apply gs_app; [apply gs_pexp; [exact We|apply okn_of_clo; reflexivity]|]. spc. word. apply gs_eol.
+      apply gs_app; [apply H; exact Wt|apply H0; exact Wr].
+  - intros b. destruct b as [is tl]. apply Hblk. apply Forall_forall. intros i _. destruct i as [l bl s t]. apply Hitem. apply H.
+Qed.
+
+(* C01 on L0: the printed text lexes back to the printed tokens *)
+Theorem pprog_relexes p : wfb p ->
+  lex_loop v (S (List.length (render (pprog c p)))) (render (pprog c p)) = Some (pprog c p).
+Proof.
+  intros W. destruct (proj2 gs_all p W 0 None) as [A B]. apply (LexAdj.adj_relex v Hjit); assumption.
 Qed.
 End Lexical.
